@@ -32,8 +32,10 @@ type op struct {
 }
 
 type Case struct {
-	Ops []op `json:"ops"`
-	Big *Big `json:"big,omitempty"` // search legs: a long generated history (search.go); Ops is unused then
+	Ops   []op   `json:"ops"`
+	Big   *Big   `json:"big,omitempty"`   // search legs: a long generated history (search.go); Ops is unused then
+	Ctor  string `json:"ctor,omitempty"`  // legs2.go: how the (empty) buffer of the case is made ("" = the zero value)
+	Fleet *Fleet `json:"fleet,omitempty"` // legs2.go: a process-lifetime history over many buffers; Ops is unused then
 }
 
 type ty struct {
@@ -123,7 +125,7 @@ func runCase(c Case, emit func(op, ans string)) (fails []failure) {
 	fail := func(key, format string, a ...interface{}) {
 		fails = append(fails, failure{key, fmt.Sprintf(format, a...)})
 	}
-	var b qnet.Buffer
+	b := newBuffer(c.Ctor) // legs2.go ("" = new(qnet.Buffer): the zero value, as before)
 	say("new", "ok")
 	var fifo []fifoEnt
 	sync := true // the FIFO still describes the unread bytes
@@ -137,7 +139,7 @@ func runCase(c Case, emit func(op, ans string)) (fails []failure) {
 		switch o.K {
 		case "w":
 			v := o.V & mask(t.bits)
-			p := hxlib.Guard(func() { t.write(&b, v) })
+			p := hxlib.Guard(func() { t.write(b, v) })
 			after := b.Bytes()
 			if p != "" {
 				say(fmt.Sprintf("w %s %d", t.name, v), canonPanic(p))
@@ -157,7 +159,7 @@ func runCase(c Case, emit func(op, ans string)) (fails []failure) {
 			fifo = append(fifo, fifoEnt{t.name, v})
 		case "p":
 			var v uint64
-			p := hxlib.Guard(func() { v = t.peek(&b) })
+			p := hxlib.Guard(func() { v = t.peek(b) })
 			after := b.Bytes()
 			if p != "" {
 				say("p "+t.name, canonPanic(p))
@@ -177,7 +179,7 @@ func runCase(c Case, emit func(op, ans string)) (fails []failure) {
 			}
 		case "r":
 			var v uint64
-			p := hxlib.Guard(func() { v = t.read(&b) })
+			p := hxlib.Guard(func() { v = t.read(b) })
 			if p != "" {
 				say("r "+t.name, canonPanic(p))
 			} else {
@@ -417,7 +419,9 @@ func main() {
 	if r.Replay != "" {
 		var c Case
 		r.LoadReplay(&c)
-		if c.Big != nil {
+		if c.Fleet != nil {
+			runFleet(r, c)
+		} else if c.Big != nil {
 			runBig(r, c)
 		} else {
 			one(r, c)
@@ -427,6 +431,7 @@ func main() {
 	}
 	if os.Getenv("HX_LEGS_ONLY") != "" { // development: the legs of search.go alone
 		legs(r)
+		legs2(r)
 		return
 	}
 	r.Op("info", fmt.Sprintf("word=%d types=%s", word, func() string {
@@ -515,5 +520,6 @@ func main() {
 		r.Note("all 2^16 values of Uint16 and Int16 and all 2^8 values of Uint8 and Int8 were written, peeked and read back on the real code")
 	}
 	r.Note("platform word: %d bytes; %d cases", word, nCases)
-	legs(r) // search.go (after the generators, so that the smallest failing case of a kind is recorded first): cheap legs in every tier, the longer ones from thorough on, the rest with -search only
+	legs(r)  // search.go (after the generators, so that the smallest failing case of a kind is recorded first): cheap legs in every tier, the longer ones from thorough on, the rest with -search only
+	legs2(r) // legs2.go: second round (word extremes, constructors, process-lifetime history); the fleet leg is last on purpose
 }
